@@ -504,7 +504,54 @@ def scaled_value_type(ck, rule):
         ck.bad(rule, fm, "on every path that applies the scale/bias map the value type is tested for int (and promoted to float where the test selects it)",
                "mapped path under %s on which vdtype == int is %s" % ([(src(g[0])[:40], g[1]) for g in pf.guards if "scale" in src(g[0]) or "bias" in src(g[0])][:4], "never tested" if key == "untested" else "not promoted"), fm.node,
                "the mapped value is cast back to int before scaling: the fraction is truncated and no inaccuracy is flagged")
+    # the promotion test itself: besides `vdtype == int` it may only ask whether the map can produce a fraction - and a float bias is one such reason
+    for node in ast.walk(fm.node):
+        if isinstance(node, ast.If) and asks_int(node.test) and any(isinstance(s_, ast.Assign) and any(dotted(t_) == "vdtype" for t_ in s_.targets) and dotted(s_.value) in ("float", "np.float64") for s_ in node.body):
+            conj = node.test.values if isinstance(node.test, ast.BoolOp) and isinstance(node.test.op, ast.And) else [node.test]
+            others = [c_ for c_ in conj if not asks_int(c_)]
+            if others and any("scale" in src(c_) for c_ in others) and not any("bias" in src(c_) for c_ in others):
+                ck.bad(rule, fm, "the float promotion of an int value type covers a float bias (not only a scale other than 1)", "promotion test %s" % src(node.test)[:80], node,
+                       "an integer input with bias 0.5 and scale 1 is mapped to v - 0.5 and cast back to int: stored wrong, unflagged")
     if n == 0:
         ck.note("normaliser: no path applies the scale/bias map")
     elif not seen:
         ck.ok(rule, fm, "value type tested for int on all %d paths that apply the map" % n)
+
+
+def derived_attributes(ck, rule):
+    """C17.R2b / R4b: (a) the real / imag attributes set_val refreshes are read through get_val() (the read map), never recomputed from the codes on the
+    side; (b) the normaliser rejects an input before it touches the object: no attribute of self is written on a path that ends in raise
+    (an exception caught by the caller must leave a scaled object scaled)."""
+    prog = ck.prog
+    f = A.funnel(prog)
+    n = 0
+    seen = set()
+    for pf in fpaths(prog, f):
+        for st in pf.stores:
+            if st.path != "self.real" or st.depth:
+                continue
+            n += 1
+            v = st.raw_value
+
+            def _reads(e):
+                return isinstance(e, ast.Call) and isinstance(e.func, ast.Attribute) and e.func.attr in ("get_val", "astype") and dotted(e.func.value) == "self"
+            good = _reads(v) or (isinstance(v, ast.Attribute) and v.attr in ("real", "imag") and _reads(v.value))
+            k = src(st.raw_value)
+            if k in seen:
+                continue
+            seen.add(k)
+            ck.check(good, rule, f, "the real attribute is the value read back through get_val()", "self.real = %s" % src(st.raw_value)[:60], st.stmt,
+                     "for a scaled object the attribute no longer equals scale*code*2^-n_frac + bias")
+    if n == 0:
+        raise AnalysisError("set_val: store to self.real not found")
+    fm = A.normaliser(prog)
+    for pf in fpaths(prog, fm):
+        if pf.end != "raise":
+            continue
+        early = [st for st in pf.stores if st.depth == 0 and st.path.startswith("self.") and not isinstance(st.target, ast.Subscript)]
+        if early:
+            ck.bad(rule, fm, "the normaliser writes no attribute of the object on a path that rejects the input", "%s written before raise" % early[0].path, early[0].stmt,
+                   "a rejected store (caught by the caller) leaves the object changed: e.g. scaled = False makes later reads skip scale and bias")
+            break
+    else:
+        ck.ok(rule, fm, "no attribute of self is written on the rejecting paths of the normaliser")
